@@ -565,7 +565,7 @@ fn mutate(doc: &str, li: usize, a: usize, b: usize, m: &str) -> String {
 /// with an error (the statement's list of error causes)
 const SEM: &[&str] = &[
     "dangling_type", "dangling_gate", "dangling_submodule", "index_out_of_bounds", "index_on_non_cluster", "zero_sized_cluster", "unequal_cluster_sizes",
-    "inherit_cycle", "submodule_cycle", "wrong_arg_count", "args_on_non_generic", "non_conforming_arg", "generic_type_as_arg", "binding_with_args", "dangling_link", "unknown_entry", "unclosed_type_clause", "arg_differs_in_nested_generic_argument", "zero_sized_cluster_of_instantiated_generic",
+    "inherit_cycle", "submodule_cycle", "wrong_arg_count", "args_on_non_generic", "non_conforming_arg", "generic_type_as_arg", "binding_with_args", "dangling_link", "unknown_entry", "unclosed_type_clause", "arg_differs_in_nested_generic_argument", "zero_sized_cluster_of_instantiated_generic", "too_few_type_arguments",
 ];
 
 fn sem_mutant(bits: u32, which: &str) -> Option<String> {
@@ -612,6 +612,8 @@ fn sem_mutant(bits: u32, which: &str) -> Option<String> {
             t[main].subs.push(Sub { name: "spare", size: Some(0), ty: "Mid".into(), ty_txt: txt });
         }
         "zero_sized_cluster_of_instantiated_generic" => return None,
+        "too_few_type_arguments" if generic && bits & (1 << 11) != 0 => t[main].subs[0].ty_txt = "Mid(Leaf)".into(),
+        "too_few_type_arguments" => return None,
         "arg_differs_in_nested_generic_argument" => {
             // the argument's field has the same generic type as the interface's, instantiated differently
             let Some(i) = t.iter().position(|x| x.name == "ImplW") else { return None };
